@@ -181,7 +181,7 @@ def helper_presentation_sweep(ctx):
         ints = [[int(x) for x in r] for r in nodes_int]
         hexes = [[float(x).hex() for x in r] for r in nodes_int]
         for pres in ({"a": hexes}, {"ai": ints}):
-            jobs.append({"op": op, "args": [pres] + rest})
+            jobs.append({"op": op, "args": [pres] + rest, "check_mutation": True})
             meta.append((op, ints))
     for rep in range(1 if ctx.quick() else 5):
         for n in range(1, 9):
@@ -199,6 +199,12 @@ def helper_presentation_sweep(ctx):
             both("hazmat.tri_evaluate_barycentric", t, [d, enc_f(F(1, 4)), enc_f(F(1, 4)), enc_f(F(1, 2))])
             both("hazmat.tri_jacobian_both", t, [d, 2])
             both("hazmat.tri_compute_edge_nodes", t, [d])
+    for rep in range(4 if ctx.quick() else 40):
+        k = rng.randint(3, 7)
+        pts = [[rng.randint(-4, 4) for _ in range(k)] for _ in range(2)]
+        both("hazmat.simple_convex_hull", pts, [])
+        both("hazmat.bbox", pts, [])
+        both("hazmat.linearization_error", pts, [])
     # evaluate_hodograph takes (s, nodes)
     for j in jobs:
         if j["op"] == "hazmat.evaluate_hodograph":
@@ -208,7 +214,22 @@ def helper_presentation_sweep(ctx):
              "kind": "support sweep (pure configuration): integer-array presentation of the control net vs float64 presentation, hazmat helpers"}
     for i in range(0, len(res), 2):
         a, b = res[i], res[i + 1]
-        if json.dumps(a.get("ok")) != json.dumps(b.get("ok")) or ("exc" in a) != ("exc" in b):
+        if a.get("mutated") or b.get("mutated"):
+            stats["failures"] += 1
+            ctx.violations.append({"kind": "input-modified", "config": "pure", "op": meta[i][0], "case": {"integer_nodes": meta[i][1]},
+                                   "implementation_returned": {"float64": a, "int64": b}, "verdict": "%s modified an array passed to it" % meta[i][0]})
+            continue
+        def norm(x):
+            # values, not encodings: an integer 4 and the double 4.0 are the same answer
+            if isinstance(x, (list, tuple)):
+                return tuple(norm(e) for e in x)
+            if isinstance(x, bool) or x is None or isinstance(x, str):
+                return x
+            if isinstance(x, (int, F)):
+                return F(x)
+            return x
+        same = ("exc" in a) == ("exc" in b) and ("exc" in a or norm(dec_res(a["ok"])) == norm(dec_res(b["ok"])))
+        if not same:
             stats["failures"] += 1
             if stats["failures"] <= 3:
                 ctx.violations.append({"kind": "presentation-dependence", "config": "pure", "op": meta[i][0], "case": {"integer_nodes": meta[i][1]},
